@@ -40,6 +40,11 @@ type capabilities struct {
 	explicitWidth      bool
 }
 
+// skippedCell marks a cell of the last frame which was covered by a wide
+// character. It never compares equal to a cell set by the application (not even
+// to the zero Cell), so the cell is redrawn once it is no longer covered
+var skippedCell = Cell{Character: Character{Width: -1}}
+
 type cursorState struct {
 	row     int
 	col     int
@@ -543,7 +548,7 @@ outerNew:
 						break
 					}
 					// null out any cells we end up skipping
-					vx.screenLast.buf[row][col+i] = Cell{}
+					vx.screenLast.buf[row][col+i] = skippedCell
 				}
 				col += skip
 				continue
@@ -748,7 +753,7 @@ outerNew:
 					break
 				}
 				// null out any cells we end up skipping
-				vx.screenLast.buf[row][col+i] = Cell{}
+				vx.screenLast.buf[row][col+i] = skippedCell
 			}
 			col += skip
 		}
